@@ -213,6 +213,16 @@ def gen_cases(ctx):
         cases.append(("boundary", kind, p, rng.randbytes(32)))
         if n % 16 == 0:
             cases.append(("boundary", kind, p[:-1] + b"\x01", rng.randbytes(32)))
+    # content that is itself a media blob: a file encrypted for the SAME key and kind (an .enc file uploaded again,
+    # a forwarded blob), for another kind, for another key.  Content is opaque: it is encrypted like any other.
+    for kind in KIND_ORDER:
+        for n in (0, 5, 16, 100):
+            key = rng.randbytes(32)
+            inner = ref_encrypt(rng.randbytes(n), key, info_of(kind))
+            cases.append(("sealed-same", kind, inner, key))
+            other = KIND_ORDER[(KIND_ORDER.index(kind) + 1) % len(KIND_ORDER)]
+            cases.append(("sealed-other-kind", kind, ref_encrypt(rng.randbytes(n), key, info_of(other)), key))
+            cases.append(("sealed-other-key", kind, ref_encrypt(rng.randbytes(n), rng.randbytes(32), info_of(kind)), key))
     # free info strings through the generic encrypt/decrypt
     for i in range(10 if ctx.tier == "quick" else 200):
         info = rng.randbytes(rng.choice([0, 1, 5, 19, 40]))
